@@ -7,6 +7,7 @@ import (
 	"time"
 
 	"github.com/feichai0017/NoKV/utils"
+	"github.com/feichai0017/NoKV/utils/verifhook"
 )
 
 // Targets describes the compaction size targets for each level.
@@ -147,6 +148,9 @@ func (cm *Manager) runCycle(id int, reason string) {
 }
 
 func (cm *Manager) runOnce(id int) bool {
+	if verifhook.Flag("compaction.pause") {
+		return false
+	}
 	prios := cm.exec.PickCompactLevels()
 	if id == 0 {
 		prios = MoveL0ToFront(prios)
